@@ -76,6 +76,8 @@ pub axiom fn ax_enc_sub(s: Seq<char>, i: nat, j: nat)
     requires i <= j <= s.len()
     ensures enc(s.subrange(i as int, j as int)) =~= enc(s).subrange(boff(s, i) as int, boff(s, j) as int);
 
+/// A-str: two &str with the same chars are the same string
+pub broadcast axiom fn ax_str_inj(a: &str, b: &str) ensures #![trigger a@, b@] (a@ == b@) == (a == b);
 pub uninterp spec fn str_bytes(s: &str) -> Seq<u8>;
 pub broadcast axiom fn ax_str_bytes(s: &str) ensures #[trigger] str_bytes(s) == enc(s@);
 
@@ -89,13 +91,23 @@ pub uninterp spec fn pat_yes<T, P>(p: P, c: char) -> bool;
 pub uninterp spec fn pat_no<T, P>(p: P, c: char) -> bool;
 /// pat_at(p, s, k): pattern p matches the text s at char index k (used by eat_until)
 pub uninterp spec fn pat_at<T, P>(p: P, s: Seq<char>, k: int) -> bool;
+/// pat_miss(p, s, k): the scanner tried p at index k and it did not match
+pub uninterp spec fn pat_miss<T, P>(p: P, s: Seq<char>, k: int) -> bool;
 
 pub broadcast axiom fn ax_pat_char(p: char, rest: Seq<char>)
     ensures #[trigger] pat_mlen::<(), char>(p, rest) == (if rest.len() > 0 && rest[0] == p { Some(1nat) } else { None::<nat> });
 pub broadcast axiom fn ax_pat_str(p: &str, rest: Seq<char>)
     ensures #[trigger] pat_mlen::<(), &str>(p, rest) == (if p@.len() <= rest.len() && rest.subrange(0, p@.len() as int) == p@ { Some(p@.len()) } else { None::<nat> });
+/// a function pattern is *called* on the next char: the outcome is whatever value r it returned, and
+/// p.ensures((c,), r) holds for that r (operational reading; assumes the pattern function returns)
 pub broadcast axiom fn ax_pat_fn<F: FnMut(char) -> bool>(p: F, rest: Seq<char>)
-    ensures #[trigger] pat_mlen::<char, F>(p, rest) == (if rest.len() > 0 && p.ensures((rest[0],), true) { Some(1nat) } else { None::<nat> });
+    ensures rest.len() == 0 ==> #[trigger] pat_mlen::<char, F>(p, rest) == None::<nat>,
+        rest.len() > 0 ==> (pat_mlen::<char, F>(p, rest) == Some(1nat) && p.ensures((rest[0],), true))
+                        || (pat_mlen::<char, F>(p, rest) == None::<nat> && p.ensures((rest[0],), false));
+pub broadcast axiom fn ax_pat_fnref<F: FnMut(&char) -> bool>(p: F, rest: Seq<char>)
+    ensures rest.len() == 0 ==> #[trigger] pat_mlen::<&char, F>(p, rest) == None::<nat>,
+        rest.len() > 0 ==> (pat_mlen::<&char, F>(p, rest) == Some(1nat) && p.ensures((&rest[0],), true))
+                        || (pat_mlen::<&char, F>(p, rest) == None::<nat> && p.ensures((&rest[0],), false));
 pub broadcast axiom fn ax_yes_fn<F: FnMut(char) -> bool>(p: F, c: char)
     ensures #[trigger] pat_yes::<char, F>(p, c) == p.ensures((c,), true);
 pub broadcast axiom fn ax_no_fn<F: FnMut(char) -> bool>(p: F, c: char)
@@ -105,9 +117,11 @@ pub broadcast axiom fn ax_yes_fnref<F: FnMut(&char) -> bool>(p: F, c: char)
 pub broadcast axiom fn ax_no_fnref<F: FnMut(&char) -> bool>(p: F, c: char)
     ensures #[trigger] pat_no::<&char, F>(p, c) == p.ensures((&c,), false);
 pub broadcast axiom fn ax_at_str(p: &str, s: Seq<char>, k: int)
-    ensures #[trigger] pat_at::<(), &str>(p, s, k) == (0 <= k && k + p@.len() <= s.len() && s.subrange(k, k + p@.len()) == p@);
+    ensures #[trigger] pat_at::<(), &str>(p, s, k) == (0 <= k && k + p@.len() <= s.len() && s.subrange(k, k + p@.len()) == p@),
+        #[trigger] pat_miss::<(), &str>(p, s, k) == !(0 <= k && k + p@.len() <= s.len() && s.subrange(k, k + p@.len()) == p@);
 pub broadcast axiom fn ax_at_fn<F: FnMut(char) -> bool>(p: F, s: Seq<char>, k: int)
-    ensures #[trigger] pat_at::<char, F>(p, s, k) == (0 <= k < s.len() && p.ensures((s[k],), true));
+    ensures #[trigger] pat_at::<char, F>(p, s, k) ==> 0 <= k < s.len() && p.ensures((s[k],), true),
+        #[trigger] pat_miss::<char, F>(p, s, k) ==> 0 <= k < s.len() && p.ensures((s[k],), false);
 
 pub open spec fn rest(s: &Scanner) -> Seq<char> { sc_src(s).subrange(sc_ci(s) as int, sc_src(s).len() as int) }
 
@@ -136,7 +150,7 @@ pub assume_specification<'a, T, P: unscanny::Pattern<T>> [Scanner::<'a>::eat_whi
 pub assume_specification<'a, T, P: unscanny::Pattern<T>> [Scanner::<'a>::eat_until::<T>] (s: &mut Scanner<'a>, pat: P) -> (r: &'a str)
     ensures sc_src(final(s)) == sc_src(old(s)),
         sc_ci(old(s)) <= sc_src(old(s)).len() ==> sc_ci(old(s)) <= sc_ci(final(s)) <= sc_src(old(s)).len(),
-        forall|k: int| sc_ci(old(s)) <= k < sc_ci(final(s)) ==> !#[trigger] pat_at::<T, P>(pat, sc_src(old(s)), k),
+        forall|k: int| #![trigger sc_src(old(s))[k]] #![trigger pat_miss::<T, P>(pat, sc_src(old(s)), k)] sc_ci(old(s)) <= k < sc_ci(final(s)) ==> pat_miss::<T, P>(pat, sc_src(old(s)), k),
         sc_ci(final(s)) < sc_src(old(s)).len() ==> pat_at::<T, P>(pat, sc_src(old(s)), sc_ci(final(s)) as int);
 pub assume_specification<'a> [Scanner::<'a>::jump] (s: &mut Scanner<'a>, target: usize)
     ensures sc_src(final(s)) == sc_src(old(s)),
@@ -189,7 +203,11 @@ pub assume_specification [char::is_ascii_whitespace] (c: &char) -> (r: bool)
 pub uninterp spec fn uni_alphabetic(c: char) -> bool;
 pub uninterp spec fn uni_whitespace(c: char) -> bool;
 pub assume_specification [char::is_alphabetic] (c: char) -> (r: bool)
-    ensures r == uni_alphabetic(c), (('a' <= c && c <= 'z') || ('A' <= c && c <= 'Z')) ==> r, (c as u32) < 128 && r ==> (('a' <= c && c <= 'z') || ('A' <= c && c <= 'Z'));
+    ensures r == uni_alphabetic(c);
+/// Unicode Alphabetic restricted to ASCII is exactly the ASCII letters
+pub axiom fn ax_alphabetic(c: char)
+    ensures (('a' <= c && c <= 'z') || ('A' <= c && c <= 'Z')) ==> uni_alphabetic(c),
+        (c as u32) < 128 && uni_alphabetic(c) ==> (('a' <= c && c <= 'z') || ('A' <= c && c <= 'Z'));
 
 // ------------------------------------------------------------------ character classes of the TableGen reference
 pub open spec fn is_ident_start(c: char) -> bool { ('a' <= c && c <= 'z') || ('A' <= c && c <= 'Z') || c == '_' }
